@@ -14,7 +14,7 @@ LEVEL = 'model_checking'
 RULE = ('state = (topology spec, period k); all specs within the deviation bound of the base economy in the families '
         'single / federated / two zones / three zones / two zones without external sector; oracle: '
         'sum over sectors with F in a currency zone of F(k)-F(k-1), plus EXT_FX NET of that currency, == 0 as a rational '
-        '(float gap oracle only for the non-affine PC-style portfolio weight); non-trivial = spec in which some F changes')
+        '(float gap oracle only for the non-affine PC-style portfolio weight); the zones are the declared currencies (the model\'s zone membership must be that partition, incl. a Region left on the default currency); non-trivial = spec in which some F changes')
 ASSUMPTIONS = [
     'k=0 values are taken from the library (they are the initial state); periods 1..3 are solved exactly by mc/exact.py',
     'k=1 is checked only for specs without imposed initial stocks',
@@ -43,6 +43,18 @@ def check_spec(spec, labels=()):
     if r.error is not None and type(r.error).__name__ != 'ConvergenceError':
         return 'main-error:%s' % type(r.error).__name__, False, [], 0, 0
     ledger = topo.zone_ledger(r.built)
+    # the zones of the property are the declared currencies: the model's own zone membership must be that partition
+    want_zones = {}
+    for c in spec['countries']:
+        want_zones.setdefault(c['cur'], set()).add(r.built.countries[c['code']].Code)
+    if spec.get('late_region'):
+        want_zones.setdefault(spec['late_region'][1], set()).add(spec['late_region'][0])
+    ext = r.built.model.ExternalSector
+    got_zones = dict((z.Currency, set(x.Code for x in z.CountryList if x is not ext)) for z in r.built.model.CurrencyZoneList)
+    got_zones = dict((k, v) for k, v in got_zones.items() if v)
+    if got_zones != want_zones:
+        return 'zones-wrong', False, [core.violation('currency-zone-membership-wrong', 'currency zones of the model %r, declared %r' % (
+            sorted((k, sorted(v)) for k, v in got_zones.items()), sorted((k, sorted(v)) for k, v in want_zones.items())), case)], 1, 0
     has_ic = any(c['ic'] for c in spec['countries'])
     first_k = 2 if has_ic else 1
     viols = []
